@@ -215,7 +215,9 @@ block 😀 description
 """
 type Item { v: Int @deprecated(reason: "é😀") }
 type Box { i: item, I: Item, e: E }
-enum E { "member 😀" A @deprecated(reason: "") b B }
+enum E { "member 😀" A @deprecated(reason: "") b B "first line\r\nsecond line\rthird" C @deprecated(reason: "a\rb\r\nc") }
+"trailing return\r"
+input In { "cr \r lf \n crlf \r\n end" f: String = "d\re\r\nf" }
 directive @Tag(n: String = "😀") on FIELD
 directive @tag(n: String = "\"") on FIELD
 '''
